@@ -62,7 +62,7 @@ func ruleC13Sep(e *Env) {
 		want string
 		name string
 	}{{0, "", "plain"}, {pretty, " ", "pretty"}, {pretty | html, "&nbsp;", "pretty|html"}, {html, "", "html only"}} {
-		ev := &pred.Evaluator{Prog: e.P.SSA, Oracle: noOracle{}}
+		ev := &pred.Evaluator{Prog: e.P.SSA, GlobalInit: e.globalTables(), Oracle: noOracle{}}
 		out, err := ev.Eval(fn, []pred.Val{pred.Sym{Name: "buf"}, pred.Const{V: constant.MakeInt64(c.f)}})
 		if err != nil {
 			e.S.Unk(rule, site, c.name, "not evaluable: "+err.Error(), e.Pos(fn))
